@@ -3056,7 +3056,7 @@ where
                         events.push(GenericEvent::NotifyPacketIdReleased(packet_id));
                     }
                     if self.publish_send_max.is_some() {
-                        self.publish_send_count -= 1;
+                        self.publish_send_count = self.publish_send_count.saturating_sub(1);
                     }
                     events.extend(self.refresh_pingreq_recv());
                     events.push(GenericEvent::NotifyPacketReceived(packet.into()));
@@ -3130,7 +3130,7 @@ where
                             events.push(GenericEvent::NotifyPacketIdReleased(packet_id));
                         }
                         if self.publish_send_max.is_some() {
-                            self.publish_send_count -= 1;
+                            self.publish_send_count = self.publish_send_count.saturating_sub(1);
                         }
                     }
                     events.extend(self.refresh_pingreq_recv());
@@ -3260,7 +3260,7 @@ where
                         events.push(GenericEvent::NotifyPacketIdReleased(packet_id));
                     }
                     if self.publish_send_max.is_some() {
-                        self.publish_send_count -= 1;
+                        self.publish_send_count = self.publish_send_count.saturating_sub(1);
                     }
                     events.extend(self.refresh_pingreq_recv());
                     events.push(GenericEvent::NotifyPacketReceived(packet.into()));
